@@ -307,6 +307,16 @@ def run(report, tier, seed):
                     break
         except Exception as exc:  # noqa: BLE001
             add(f"raise:{tag.split(':')[0]}", f"{gen.describe(p)} at {point} raised {type(exc).__name__}: {exc}", rep)
+    # ---- a narrow numpy scalar whose own power overflows its type (known finding D45): the value depends on the carrier
+    try:
+        q0_, q1_ = numpoly.variable(2)
+        pw = q0_ ** 5 + q1_
+        got = [int(numpy.asarray(pw(c, 1)).item()) for c in (3, numpy.int64(3), numpy.int8(3), numpy.uint8(3))]
+        if len(set(got)) != 1:
+            add("value:narrow-carrier-power", f"(q0**5+q1)(c, 1) for c = 3, int64(3), int8(3), uint8(3) gives {got}: the value depends on the type "
+                                              f"that carries the argument (3**5 = 243 does not fit int8)", {"poly": "q0**5+q1", "values": got})
+    except Exception as exc:  # noqa: BLE001
+        add("raise:narrow-carrier-power", f"(q0**5+q1)(int8(3), 1) raised {type(exc).__name__}: {exc}", {"poly": "q0**5+q1"})
     failed, errors = cc.run()
     report.coverage.update({
         "evaluations": n, "distinct_nontrivial": len(nontrivial),
@@ -339,7 +349,7 @@ def run(report, tier, seed):
             report.violation("C02: proof obligation no longer checks: " + str(report.coverage.get("broken_obligation", {}).get("where")),
                              {"kind": "broken-proof", **report.coverage.get("broken_obligation", {})}, found_input=False)
     report.coverage["trusted_base"] = ["Coq 8.16.1 kernel + VM", "MathComp / SsrMultinomials (meval)", "harness exact integer evaluation"]
-    report.assumptions += ["integer-valued arguments and coefficients, magnitudes chosen so that fixed-width numpy scalars do not overflow"]
+    report.assumptions += ["integer-valued arguments and coefficients, magnitudes chosen so that fixed-width numpy scalars do not overflow in their own powers (known finding D45 is the overflowing case)"]
 
 
 def replay(path):
